@@ -317,7 +317,130 @@ def run(ctx):
     ctx.validate("Rows_Trace", ROWS_CFG, rtraces,
                  sig=lambda t, v: f"rows:{t['cfg']['algo']}:{t['cfg']['family']}:{'full' if t['cfg']['batch_size'] >= 64 else 'part'}:{(v.clauses[0] if v.clauses else v.invariant)[:60]}",
                  what=lambda t, v: f"minibatch trace rejected at event {v.step}: {v.clauses or v.invariant}; cfg={t['cfg']}; event={str(v.event)[:300]}")
+    # ---- rollout flags (training loops)                                   [stage added after the others: begin]
+    _rollout_stage(ctx)
+    # ---- rollout flags (training loops)                                   [end]
     return "model_checking", rule, False
+
+
+# ------------------------------------------------------------------------------------------ rollout flags (training loops)
+# Rollout.tla: how train_on_policy / train_multi_agent_on_policy PRODUCE the done flags that the stages above take
+# as inputs of learn(): d[t+1] = 1 exactly where the vector environment ended the episode (termination OR
+# truncation) at step t, next_done likewise for the last step, next_state = the observation after the last step.
+ROLLOUT_CFG = """SPECIFICATION TSpec
+CONSTANTS
+  EnvSet = {1}
+  AgentSet = {1}
+  Kinds = {"term"}
+  MaxT = 1000
+  MaxRolls = 100000
+  MaxEp = 100000
+  FlagRule = "either"
+  Diag = @DIAG@
+INVARIANT TypeOK
+INVARIANT FlagsMarkEpisodeStarts
+INVARIANT NoLeak
+INVARIANT ObsChain
+INVARIANT FirstFlagZero
+CHECK_DEADLOCK FALSE
+"""
+ROLLOUT_COVER = ["Reset|ResetTo", "StepContinue|StepWith", "StepTermOnly", "StepTruncOnly", "StepMixed", "Learn"]
+
+
+def _rollout_sig(t, v):
+    if v.clauses:
+        key = v.clauses[0].split(":")[0]
+        if key == "crash" and isinstance(v.event, dict):
+            key += f"[{v.event.get('exc', '?')}]"
+    else:
+        key = "inv-" + (v.invariant or "?")
+    return f"rollout:{t['cfg']['loop']}:{key}"
+
+
+def _rollout_what(t, v):
+    c = t["cfg"]
+    before = [e for e in t["ev"][:max(v.step - 1, 0)]][-4:]
+    return (f"{'train_on_policy (PPO)' if c['loop'] == 'ppo' else 'train_multi_agent_on_policy (IPPO)'}: trace rejected at event "
+            f"{v.step}: {v.clauses or ('invariant ' + v.invariant)}; envs={c['E']} agents={c['agents'] or 1} learn_steps={c['learn_steps']} "
+            f"scripts(length, end kind per episode, cyclic)={c['scripts']}; event={json.dumps(v.event)[:900]}; "
+            f"preceding events={json.dumps([{k: x[k] for k in x if k in ('op', 'term', 'trunc', 'ep', 'k')} for x in before])[:900]}")
+
+
+def _rollout_cfgs(quick, seed):
+    out = []
+    n = 2 if quick else 12
+    for j in range(n):
+        E = (2, 3, 1, 2)[j % 4]
+        # learn_step = T * E: rollouts of T = 3 and T = 1 (only next_done matters) / T = 2 and 4 steps in one population
+        ls = ([3 * E, E], [2 * E, 4 * E], [5 * E, 2 * E])[j % 3]
+        out.append({"loop": "ppo", "E": E, "seed": seed + j, "learn_steps": ls, "rolls": 2 + j % 2, "gens": 2})
+        names = (["agent_0", "agent_1"], ["agent_0", "agent_1", "other_0"], ["speaker_0", "listener_0"])[j % 3]
+        out.append({"loop": "ippo", "E": (2, 3, 1, 2)[j % 4], "seed": seed + j, "learn_steps": ls, "rolls": 2 + j % 2, "gens": 2, "agents": names})
+    return out
+
+
+def _rollout_stage(ctx):
+    quick = ctx.quick
+    if quick:
+        ctx.mc("Rollout_MC", "Rollout_MCq.cfg", must_cover=ROLLOUT_COVER)
+        ctx.mc("Rollout_MC", "Rollout_MCma.cfg", must_cover=ROLLOUT_COVER)
+    else:
+        ctx.mc("Rollout_MC", "Rollout_MC.cfg", must_cover=ROLLOUT_COVER, timeout=3000)
+        ctx.mc("Rollout_MC", "Rollout_MCma.cfg", must_cover=ROLLOUT_COVER)
+        ctx.mc("Rollout_MC", "Rollout_MCmat.cfg", must_cover=ROLLOUT_COVER, timeout=3000)
+    negs = [("Rollout_Neg.cfg", "FlagsMarkEpisodeStarts")] + ([] if quick else [("Rollout_NegLeak.cfg", "NoLeak")])
+    for cfg, inv in negs:
+        neg = tlc.model_check("Rollout_MC", cfg)
+        if neg.ok or neg.violated_name != inv:
+            raise Vacuous(f"negative control {cfg}: done flags taken from terminations only (truncations dropped) were not rejected by {inv}")
+        ctx.extra.setdefault("rollout_negative_controls", []).append({"cfg": cfg, "violated": neg.violated_name, "distinct_states": neg.distinct})
+
+    from ..drive import rollout
+    traces = [rollout.run(c) for c in _rollout_cfgs(quick, ctx.seed)]
+    agg = {}
+    for t in traces:
+        st = rollout.stats(t)
+        a = agg.setdefault(t["cfg"]["loop"], {})
+        for k, x in st.items():
+            a[k] = a.get(k, 0) + x
+        ctx.case(("rollout", json.dumps(t["cfg"], sort_keys=True)), nontrivial=st["term_inner"] + st["trunc_inner"] + st["term_last"] + st["trunc_last"] > 0)
+    ctx.extra["rollout_runs"] = agg
+    ctx.sample({"rollout_trace": {"cfg": traces[0]["cfg"], "ev": traces[0]["ev"][:6]}})
+    vs = ctx.validate("Rollout_Trace", ROLLOUT_CFG, traces, sig=_rollout_sig, what=_rollout_what)
+    ctx.extra["rollout_traces_accepted"] = sum(1 for v in vs if v.accepted)
+    if all(v.accepted for v in vs):          # vacuity: the accepted runs contain every kind of boundary the clauses talk about
+        for loop, a in agg.items():
+            need = ["learn", "term_inner", "trunc_inner", "term_last", "trunc_last", "cont_last", "envs_differ", "carry"] + (["agents_differ"] if loop == "ippo" else [])
+            missing = [k for k in need if a.get(k, 0) == 0]
+            if missing:
+                raise Vacuous(f"rollout stage: the recorded {loop} runs contain no {missing} (stats {a})")
+    ctx.assume("rollout stage: the vector environments reset a finished sub-environment in the same step and return the first "
+               "observation of the next episode (gymnasium SyncVectorEnv(autoreset_mode=SAME_STEP); AsyncPettingZooVecEnv); the "
+               "recorded observations are checked against this rule (clause env-same-step-autoreset), it is not trusted")
+    ctx.assume("rollout stage: all agents of a scripted multi-agent sub-environment end their episode in the same step (each by "
+               "termination or by truncation); agents that leave an episode early get placeholder transitions from the vector "
+               "environment, which C12 covers")
+    ctx.assume("rollout stage: the flags, states and next_state are read by a spy around PPO.learn / IPPO.learn that calls the real "
+               "learn(); terminations, truncations and observations are read from the vector environment's own step()/reset() "
+               "return values; evaluation episodes (agent.test) between generations are not part of any rollout; the episode an "
+               "observation belongs to is read from the observation itself (the scripted environment writes its reset count into it)")
+    ctx.assume("rollout stage: the flag of the first row of a rollout (always 0 in the loops, also right after an episode end) is "
+               "not constrained: the recursion never reads it")
+
+
+def _rollout_replay(rp):
+    from .. import trace as trace_mod
+    from ..drive import rollout
+    t = rp["replay"]["trace"]
+    c = dict(t["cfg"])
+    c["scripts"] = [[tuple(x) for x in s] for s in c["scripts"]]
+    new = rollout.run(c)
+    v = trace_mod.validate("Rollout_Trace", ROLLOUT_CFG, [new])[0]
+    for i, e in enumerate(new["ev"], start=1):
+        mark = "  <-- rejected here: " + "; ".join(v.clauses) if (not v.accepted and i == v.step) else ""
+        print(f"{i:3d} {json.dumps({k: x for k, x in e.items() if k != 'tb'})[:500]}{mark}")
+    print("ACCEPTED" if v.accepted else f"REJECTED at event {v.step}: {v.clauses or v.invariant}")
+    return 0 if v.accepted else 1
 
 
 # ------------------------------------------------------------------------------------------ replay
@@ -335,6 +458,8 @@ def replay(path):
     if r.get("kind") != "rejected-trace":
         print(r.get("text", "")[:6000])
         return 1
+    if r.get("module") == "Rollout_Trace":          # rollout flags (training loops) stage
+        return _rollout_replay(rp)
     t = r["trace"]
     c = t["cfg"]
     roll = {k: c[k] for k in ("T", "E", "G", "gn", "ln")}
